@@ -41,7 +41,7 @@ var c15Idents = []c15Ident{
 }
 
 func (i c15Ident) start() time.Time { return i.startDate.Add(i.startTime) }
-func (i c15Ident) uid() string     { return fmt.Sprintf("%d%s", i.start().Unix(), i.id[6:]) }
+func (i c15Ident) uid() string      { return fmt.Sprintf("%d%s", i.start().Unix(), i.id[6:]) }
 
 type c15Entry struct {
 	uid, tripID, route, vehicle string
@@ -77,10 +77,22 @@ func c15Feed(k int, states [4]int) *gtfs.Realtime {
 		id := c15Idents[i]
 		stop := "A"
 		arr := time.Unix(int64(c14T0+60*k+1000+i), 0).UTC()
-		trip := gtfs.Trip{ID: gtfs.TripID{ID: id.id, RouteID: id.route, DirectionID: id.dir, HasStartDate: true, StartDate: id.startDate, HasStartTime: true, StartTime: id.startTime},
+		// the same start date is carried in another *time.Location from feed to feed (ParseRealtime
+		// callers may pass a freshly loaded zone per call): the instant is what identifies the trip
+		startDate := id.startDate
+		switch k % 3 {
+		case 1:
+			startDate = startDate.In(time.FixedZone("alt", 3600))
+		case 2:
+			startDate = startDate.Local()
+		}
+		trip := gtfs.Trip{ID: gtfs.TripID{ID: id.id, RouteID: id.route, DirectionID: id.dir, HasStartDate: true, StartDate: startDate, HasStartTime: true, StartTime: id.startTime},
 			StopTimeUpdates: []gtfs.StopTimeUpdate{{StopID: &stop, Arrival: &gtfs.StopTimeEvent{Time: &arr}}}, IsEntityInMessage: true}
 		if st >= 2 {
 			trip.Vehicle = &gtfs.Vehicle{ID: &gtfs.VehicleID{ID: c15VehicleOf(st)}}
+		}
+		if st == 5 {
+			trip.Vehicle = &gtfs.Vehicle{} // seen with a vehicle that carries no id at all
 		}
 		if st == 4 {
 			trip.StopTimeUpdates = nil // seen with a vehicle, but the update lists no stop
@@ -151,6 +163,9 @@ func c15VehicleOf(state int) string {
 	if state == 3 {
 		return "v2"
 	}
+	if state == 5 {
+		return ""
+	}
 	return "v1" // states 2 and 4
 }
 
@@ -170,7 +185,10 @@ var c15Windows = []c15Window{
 	{"[S1-500ms,S1+500ms]", c15S1.Add(-500 * time.Millisecond), c15S1.Add(500 * time.Millisecond)},
 }
 
-func c15Harness(maxLen int, fourth bool) Harness {
+func c15Harness(maxLen int, fourth bool) Harness { return c15HarnessT1(maxLen, fourth, 5) }
+
+// c15HarnessT1: t1States = 5 (T1 in absent / unassigned / v1 / v2 / v1 with an empty list) or 6 (also: a vehicle without id)
+func c15HarnessT1(maxLen int, fourth bool, t1States int) Harness {
 	schemeMaxLen := 2
 	if maxLen >= 4 {
 		schemeMaxLen = 3
@@ -180,13 +198,13 @@ func c15Harness(maxLen int, fourth bool) Harness {
 		var history [][4]int
 		var names []string
 		for k := 0; k < n; k++ {
-			// T1 in {absent, unassigned, v1, v2, v1 with an empty update list}; T2, T3 in {absent, unassigned, v1, v2}
-			nsym := 80
+			// T1 in {absent, unassigned, v1, v2, v1 with an empty update list, a vehicle without id}; T2, T3 in {absent, unassigned, v1, v2}
+			nsym := t1States * 16
 			if fourth {
-				nsym = 240 // T4 in {absent, unassigned, vehicle v1}
+				nsym *= 3 // T4 in {absent, unassigned, vehicle v1}
 			}
 			sym := c.Free(fmt.Sprintf("feed[%d]", k), nsym)
-			st := [4]int{sym % 5, (sym / 5) % 4, (sym / 20) % 4, sym / 80}
+			st := [4]int{sym % t1States, (sym / t1States) % 4, (sym / (4 * t1States)) % 4, sym / (16 * t1States)}
 			history = append(history, st)
 			names = append(names, fmt.Sprintf("%d%d%d%d", st[0], st[1], st[2], st[3]))
 		}
@@ -200,7 +218,7 @@ func c15Harness(maxLen int, fourth bool) Harness {
 		defer func() { feedTimeScheme = 0 }()
 		hist += fmt.Sprintf(" [feed times: scheme %d]", feedTimeScheme)
 		c.Input(hash64(hist), n >= 2, func() string {
-			return "history (per feed: state of T1,T2,T3,T4; 0 absent, 1 unassigned, 2 vehicle v1, 3 vehicle v2, 4 vehicle v1 with an empty update list): " + hist
+			return "history (per feed: state of T1,T2,T3,T4; 0 absent, 1 unassigned, 2 vehicle v1, 3 vehicle v2, 4 vehicle v1 with an empty update list, 5 a vehicle without id): " + hist
 		})
 		var feeds []*gtfs.Realtime
 		for k, st := range history {
@@ -248,7 +266,7 @@ func c15Harness(maxLen int, fourth bool) Harness {
 			uidOf := map[string]string{}
 			for i := range j.Trips {
 				t := &j.Trips[i]
-				g := &c15Entry{uid: t.TripUID, tripID: t.TripID, route: t.RouteID, dir: t.DirectionID, start: t.StartTime, vehicle: t.VehicleID, lastObserved: t.LastObserved, markedPast: t.MarkedPast, numUpdates: t.NumUpdates}
+				g := &c15Entry{uid: t.TripUID, tripID: t.TripID, route: t.RouteID, dir: t.DirectionID, start: t.StartTime.UTC(), vehicle: t.VehicleID, lastObserved: t.LastObserved, markedPast: t.MarkedPast, numUpdates: t.NumUpdates}
 				s := strip(g)
 				// the stop-level part is rendered from the journal's own stop times
 				if len(t.StopTimes) == 1 && t.StopTimes[0].StopID == "A" {
@@ -478,7 +496,7 @@ func init() {
 	register(&Check{
 		ID:    "C15",
 		Level: "model_checking",
-		Rule: "9 / 65 / 257 / 1025 trips over three feeds in 4 appearance patterns x 3 windows against per-trip accounting; three trip identities (T1, T2 share start instant and id suffix -> one UID; T3 other suffix and start) each per feed in {absent, unassigned, vehicle v1, vehicle v2} (T1 also: vehicle v1 with an empty update list) = 80 feed symbols; ALL histories of <= 3 feeds (thorough <= 4) x 8 windows (incl. bounds with a sub-second part), histories of <= 2 (thorough 3) feeds additionally under 4 feed-time schemes (60 s apart, all equal, no timestamps, decreasing); plus a fourth identity T4 (same trip id and start date as T1, another start time) in {absent, unassigned, v1}: 240 symbols, ALL histories of <= 2 (thorough 3) feeds x 8 windows (incl. bounds with a sub-second part); " +
+		Rule: "9 / 65 / 257 / 1025 trips over three feeds in 4 appearance patterns x 3 windows against per-trip accounting; three trip identities (T1, T2 share start instant and id suffix -> one UID; T3 other suffix and start) each per feed in {absent, unassigned, vehicle v1, vehicle v2} (T1 also: vehicle v1 with an empty update list) = 80 feed symbols (96 with a vehicle without id for T1, in histories of <= 2, thorough 3), the start date carried in a different *time.Location from feed to feed; ALL histories of <= 3 feeds (thorough <= 4) x 8 windows (incl. bounds with a sub-second part), histories of <= 2 (thorough 3) feeds additionally under 4 feed-time schemes (60 s apart, all equal, no timestamps, decreasing); plus a fourth identity T4 (same trip id and start date as T1, another start time) in {absent, unassigned, v1}: 240 symbols, ALL histories of <= 2 (thorough 3) feeds x 8 windows (incl. bounds with a sub-second part); " +
 			"non-trivial = distinct histories of >= 2 feeds; oracle = reference accountant compared field by field (UID, id fields, vehicle, last observed, marked past, update count, stop-level marks), order and uniqueness included",
 		Assumptions: []string{"feeds list their trips in identifier order, as ParseRealtime produces them", "feed times are 60 s apart starting at a fixed instant"},
 		Scenarios: func(tier string) []*Scenario {
@@ -488,6 +506,7 @@ func init() {
 			}
 			return []*Scenario{{Name: fmt.Sprintf("all-histories<=%d", n), Bound: 1, Run: c15Harness(n, false)},
 				{Name: fmt.Sprintf("four-identities<=%d", n-1), Bound: 1, Run: c15Harness(n-1, true)},
+				{Name: fmt.Sprintf("vehicle-without-id<=%d", n-1), Bound: 1, Run: c15HarnessT1(n-1, false, 6)},
 				{Name: "many-trips", Bound: -1, Run: c15ManyTrips}}
 		},
 	})
